@@ -261,6 +261,7 @@ pub enum Act {
     Wrap2,
     Wrap0,
     Resolve,
+    ResolveNone,
     FilterNoCal,
     ConcatSelf,
     Rebuild,
@@ -354,6 +355,12 @@ impl M {
             Act::Resolve => {
                 let mut q2 = p.clone();
                 q2.resolve_placeholders();
+                Some((q2, Ref::default()))
+            }
+            Act::ResolveNone => {
+                // custom resolvers that decline every placeholder: nothing may change, the placeholders stay used
+                let mut q2 = p.clone();
+                q2.resolve_placeholders_with_custom_resolvers(Box::new(|_| None), Box::new(|_| None));
                 Some((q2, Ref::default()))
             }
             Act::FilterNoCal => Some((p.filter_instructions(|i| !matches!(i, Instruction::CalibrationDefinition(_))), Ref::default())),
@@ -623,7 +630,7 @@ fn run_model(ctx: &mut Ctx, id: &str, which: Which, name: &str, menu: Vec<Instru
         let fp_tail: Vec<String> = small
             .iter()
             .map(|a| match a {
-                Act::Add(k) => kind_key(&menu[*k]).map(|(kind, key)| format!("add-{kind}({key})")).unwrap_or_else(|| format!("add({})", menu[*k].to_quil_or_debug())),
+                Act::Add(k) => kind_key(&menu[*k]).map(|(kind, key)| format!("add-{kind}({key})")).unwrap_or_else(|| format!("add({})", anon(&menu[*k].to_quil_or_debug()))),
                 Act::Concat(k) => format!("concat{k}"),
                 o => format!("{o:?}"),
             })
@@ -631,6 +638,26 @@ fn run_model(ctx: &mut Ctx, id: &str, which: Which, name: &str, menu: Vec<Instru
         let fp = if do_shrink { format!("{id}:{clause}:{}", fp_tail.join(",")) } else { format!("{id}:{clause}:(unshrunk)") };
         ctx.report(viol(&clause, fp, json!({"model": name, "history": hj, "acts": acts_of(&small)}), format!("after history {}: {detail}", Value::Array(hist.iter().map(|a| act_json(a, &menu)).collect::<Vec<_>>()))));
     }
+}
+
+/// placeholder identities are addresses; keep them out of fingerprints
+fn anon(s: &str) -> String {
+    let mut out = String::new();
+    let b: Vec<char> = s.chars().collect();
+    let mut i = 0;
+    while i < b.len() {
+        if b[i] == '0' && i + 1 < b.len() && b[i + 1] == 'x' {
+            out.push_str("0x..");
+            i += 2;
+            while i < b.len() && b[i].is_ascii_hexdigit() {
+                i += 1;
+            }
+        } else {
+            out.push(b[i]);
+            i += 1;
+        }
+    }
+    out
 }
 
 fn per_kind_menus() -> Vec<(&'static str, Vec<usize>)> {
@@ -666,6 +693,7 @@ fn parse_act(s: &str) -> Option<Act> {
         "Wrap2" => Act::Wrap2,
         "Wrap0" => Act::Wrap0,
         "Resolve" => Act::Resolve,
+        "ResolveNone" => Act::ResolveNone,
         "FilterNoCal" => Act::FilterNoCal,
         "ConcatSelf" => Act::ConcatSelf,
         "Rebuild" => Act::Rebuild,
@@ -739,11 +767,11 @@ pub static C10: PropDef = PropDef {
     id: "C10",
     level: "model_checking",
     engine: "hist",
-    rule: "transition system over real Programs: add_instruction over a 16-instruction menu (calibrations on fixed and variable qubits, measure calibration, gates, MEASURE, RESET, frame update, frame, sequence gate definition and use, pulse, circuit, a gate on a qubit placeholder) and the operations concat-with-self, clone_without_body_instructions, expand_calibrations, expand_defgate_sequences, simplify, wrap_in_loop(2 / 0), resolve_placeholders, filter_instructions, rebuild, dagger; depth <= 3 (thorough 5); stateright DFS with state matching. Oracle in every state (differential): used qubits and equality against from_instructions(to_instructions()); body qubits <= used <= all syntactic qubits; two states with equal listing have equal used-qubit sets. non-trivial = state at depth >= 2",
+    rule: "transition system over real Programs: add_instruction over a 16-instruction menu (calibrations on fixed and variable qubits, measure calibration, gates, MEASURE, RESET, frame update, frame, sequence gate definition and use, pulse, circuit, a gate on a qubit placeholder) and the operations concat-with-self, clone_without_body_instructions, expand_calibrations, expand_defgate_sequences, simplify, wrap_in_loop(2 / 0), resolve_placeholders, resolve_placeholders_with_custom_resolvers declining every placeholder, filter_instructions, rebuild, dagger; depth <= 3 (thorough 5); stateright DFS with state matching. Oracle in every state (differential): used qubits and equality against from_instructions(to_instructions()); body qubits <= used <= all syntactic qubits; two states with equal listing have equal used-qubit sets. non-trivial = state at depth >= 2",
     assumptions: ASSUME,
     run: |ctx| {
         let d = ctx.tier.pick(3, 5);
-        let ops = vec![Act::ConcatSelf, Act::CloneNoBody, Act::Expand, Act::ExpandSeq, Act::Simplify, Act::Wrap2, Act::Wrap0, Act::Resolve, Act::FilterNoCal, Act::Rebuild, Act::Dagger];
+        let ops = vec![Act::ConcatSelf, Act::CloneNoBody, Act::Expand, Act::ExpandSeq, Act::Simplify, Act::Wrap2, Act::Wrap0, Act::Resolve, Act::ResolveNone, Act::FilterNoCal, Act::Rebuild, Act::Dagger];
         let thorough = ctx.tier == Tier::Thorough;
         run_model(ctx, "C10", Which::C10, "operations", c10_menu(), vec![], ops, d, thorough);
     },
